@@ -126,7 +126,14 @@ func H_C10_packet() {
 		vCheck(raw[2] == byte(p.Header.Flags>>8) && raw[3] == byte(p.Header.Flags), "packet/wire/flags-big-endian")
 		vCheck(raw[5] == byte(nq) && raw[7] == byte(na) && raw[9] == byte(ns) && raw[11] == byte(nr), "packet/wire/counts")
 	}
+	// the receiver is reused: it already holds an earlier packet (one question, one record per section)
 	var d NBTNSPacket
+	old := &NetBIOSName{Name: "OLD"}
+	d.Header = NBTNSHeader{TransactionID: vU16("prev.id"), Flags: vU16("prev.flags"), Questions: 1, Answers: 1, Authority: 1, Additional: 1}
+	d.Questions = []NBTNSQuestion{{Name: old, Type: 0x20, Class: 1}}
+	d.Answers = []NBTNSResourceRecord{{Name: old, Type: 0x20, Class: 1, RDLength: 1, RData: []byte{9}}}
+	d.Authority = []NBTNSResourceRecord{{Name: old, Type: 0x20, Class: 1}}
+	d.Additional = []NBTNSResourceRecord{{Name: old, Type: 0x20, Class: 1}}
 	n, err := d.Unmarshal(raw)
 	vCheck(err == nil, "packet/unmarshal-ok")
 	if err != nil {
